@@ -11,7 +11,8 @@ Inductive cobs :=
 | OOther.
 
 (* c_links: the link_arguments attempts made while the parser was built, each with the OBSERVED outcome (accepted / ValueError) *)
-Record case := { c_mode : mode; c_parser : parser; c_links : list lnk; c_cfg : cv; c_obs : cobs }.
+(* c_append: the paths of declared List[...] keys that the channel carried in the append spelling "<key>+" *)
+Record case := { c_mode : mode; c_parser : parser; c_links : list lnk; c_cfg : cv; c_append : list (list str); c_obs : cobs }.
 Definition c_eff (c : case) : parser := with_links (c_parser c) (c_links c).
 
 Definition keys_eqb := list_eqb str_eqb.
@@ -48,7 +49,7 @@ Definition fuel : nat := 24.
    outside the guard counts as the listed finding of its class only when the faithful model reproduces what was
    observed; a deviation that neither the model nor the property explains is class 9 (not listed: reported). *)
 Definition judge1 (c : case) : verdict :=
-  let m := wf_parser (c_parser c) && agree (run (c_mode c) fuel (c_eff c) (c_cfg c)) (c_obs c) in
+  let m := wf_parser (c_parser c) && agree (run_append (c_mode c) fuel (c_eff c) (c_cfg c) (c_append c)) (c_obs c) in
   let s := spec_ok (c_mode c) (c_eff c) (c_cfg c) (to_obs (c_obs c)) in
   let g := guard_class (c_mode c) (c_eff c) (c_cfg c) in
   {| v_model := m;
